@@ -452,6 +452,9 @@ func (m *Machine) visitInstr(fr *frame, instr ssa.Instruction) continuation {
 		if m.roPtrs[addr] {
 			panic(m.unsupported("store through a pointer into a symbolic byte sequence"))
 		}
+		if m.race.on {
+			m.raceStore(fr, instr.Addr, addr, accessPos(instr.Pos(), instr.Addr))
+		}
 		store(addr, fr.get(instr.Val))
 
 	case *ssa.If:
@@ -504,6 +507,11 @@ func (m *Machine) visitInstr(fr *frame, instr ssa.Instruction) continuation {
 		fr.env[instr] = &Map{KeyT: instr.Type().Underlying().(*types.Map).Key()}
 
 	case *ssa.Range:
+		if m.race.on {
+			if mp, ok := fr.get(instr.X).(*Map); ok {
+				m.raceMapRead(fr, mp, instr.Pos())
+			}
+		}
 		fr.env[instr] = m.rangeIter(fr.get(instr.X), instr.X.Type())
 
 	case *ssa.Next:
@@ -526,12 +534,20 @@ func (m *Machine) visitInstr(fr *frame, instr ssa.Instruction) continuation {
 		fr.env[instr] = m.index(instr, fr.get(instr.X), fr.get(instr.Index))
 
 	case *ssa.Lookup:
+		if m.race.on {
+			if mp, ok := fr.get(instr.X).(*Map); ok {
+				m.raceMapRead(fr, mp, instr.Pos())
+			}
+		}
 		fr.env[instr] = m.lookup(instr, fr.get(instr.X), fr.get(instr.Index))
 
 	case *ssa.MapUpdate:
 		mp := fr.get(instr.Map).(*Map)
 		if mp == nil {
 			panic(targetPanic{msg: "assignment to entry in nil map", pos: m.posString(instr.Pos())})
+		}
+		if m.race.on {
+			m.raceMapWrite(fr, mp, instr.Pos())
 		}
 		m.mapUpdate(mp, fr.get(instr.Key), fr.get(instr.Value))
 
